@@ -334,7 +334,9 @@ pub open spec fn header_policy(hdrs0: Seq<Header>, decl0: Option<usize>, hh: Hea
         proof {   // [C04]
             // a message announced as chunked is self-delimiting only if the chunked coding (at least its terminating chunk)
             // is actually produced -- also for an empty body; an identity body of n >= 1 bytes is copied
-            assert(transfer_encoding == Some(TransferEncoding::Chunked) && !head_only && !no_body_status(status0) ==> encoder_made() && copied_once());
+            // (a body DECLARED empty need not be polled: the property presumes declared lengths to be correct)
+            assert(transfer_encoding == Some(TransferEncoding::Chunked) && !head_only && !no_body_status(status0) ==> encoder_made());
+            assert(transfer_encoding == Some(TransferEncoding::Chunked) && !head_only && !no_body_status(status0) && data_length != Some(0usize) ==> copied_once());
             assert(transfer_encoding == Some(TransferEncoding::Identity) && !head_only && !no_body_status(status0) && data_length is Some && data_length->Some_0 >= 1 ==> copied_once());
         }
 //@before? 1 Encoder :: new
